@@ -652,7 +652,15 @@ class C08(Prop):
         isnan = [[bool(np.isnan(flat[nm][k])) for nm in names] for k in range(n)]
         allnan = [all(v) for v in isnan]
         toks = [[core.tok(flat[nm][k]) for nm in names] for k in range(n)]
-        rep = ctx.driver.call("c08.case", acq=acq, sel=sel, squeeze=squeeze, nan=[k for k in range(n) if allnan[k]],
+        selpat = set(selected(acq, sel))
+        if case.get("date") is not None:                       # the date is placed relative to the rows of the log
+            r0 = ctx.driver.call("c08.rows", acq=acq, sel=sel)
+            base = base_time(case, r0["rows"], selpat) if r0["rendered"] else base_time(case, [], selpat)
+        else:
+            base = base_time(case, [], selpat)
+        base_ms = (base - datetime.datetime(1970, 1, 1)) // datetime.timedelta(milliseconds=1)
+        rep = ctx.driver.call("c08.case", acq=acq, sel=sel, squeeze=squeeze, base=base_ms,
+                              nan=[[k for k in range(n) if isnan[k][e]] for e in range(len(names))],
                               shape=shape, clock="interval" if scalar else "stamps")
         if not rep["rendered"]:
             # nothing to import (no On row in the selection, or an empty signal): outside the property
@@ -665,8 +673,12 @@ class C08(Prop):
         if len(rel) != n:
             raise core.InternalError(f"signal of {len(rel)} samples rendered, {n} expected")
         delay = float(unrat(rep["delay"]))
-        selpat = set(selected(acq, sel))
-        base = base_time(case, rows, selpat)
+        # the log is written by the Lean specification (`renderLog`); the harness's own writer must agree with it
+        lines = gen_nwi.format_lines(rows, base)
+        if lines[1:] != rep["lines"]:
+            raise core.InternalError("log text of the Lean specification differs from the harness writer: "
+                                     + repr([(a, b) for a, b in zip(lines[1:], rep["lines"]) if a != b][:2]))
+        lines = lines[:1] + rep["lines"]
 
         # ---- the objects the caller holds: the same description gives the same objects within one history
         okey = core.canon([acq, case["nelem"], case["vseed"], case["nan_mod"], case["nan_rem"], case.get("nan_plan", []),
@@ -698,8 +710,8 @@ class C08(Prop):
         else:
             # one file name for all calls of a history: a log exported again to the same place is read again
             path = env["tmp"] / "LaserLog_synthetic.csv"
-            gen_nwi.write_log(path, rows, base, eol="\r\n" if text["eol"] == "crlf" else "\n", bom=text["bom"],
-                              final_eol=text["final_eol"])
+            gen_nwi.write_lines(path, lines, eol="\r\n" if text["eol"] == "crlf" else "\n", bom=text["bom"],
+                                final_eol=text["final_eol"])
             via = case["via"]
             try:
                 log = str(path) if via == "path" else Path(path) if via == "pathobj" else laser.read_nwi_laser_log(path)
